@@ -48,10 +48,16 @@ func drawC05(rt *rapid.T) *Case {
 	}
 	n := 2 + gen.Uniform(rt, "nops", maxOps-1)
 	for i := 0; i < n; i++ {
-		switch k := gen.Uniform(rt, "op", 44); {
+		switch k := gen.Uniform(rt, "op", 46); {
+		case k >= 44:
+			c.Ops = append(c.Ops, Op{Kind: "gc"})
 		case k >= 43:
 			// somebody evaluates a path with tens of thousands of results
 			c.Ops = append(c.Ops, Op{Kind: "bigresult", A: []int{1100, 4500, 9000, 70000}[gen.Uniform(rt, "bigsize", 4)]})
+		case k == 39:
+			// an unrelated retrieval is given two Configs: the caller's own and another one that binds
+			// the same names to other functions
+			c.Ops = append(c.Ops, Op{Kind: "twoconfigs", A: gen.Uniform(rt, "other", 2), B: gen.Uniform(rt, "doc", nd)})
 		case k >= 42:
 			// a user function panics in the middle of a call; the caller recovers and carries on
 			c.Ops = append(c.Ops, Op{Kind: "paniccall", A: gen.Uniform(rt, "doc", nd)})
@@ -92,7 +98,8 @@ func sameOutcome(gotA []interface{}, errA error, gotB []interface{}, errB error)
 func checkC05(c *Case, st *Stats) string {
 	Journal(c.Check, c.Path, "", flagString(c))
 	rec := &Recorder{}
-	f, err := jsonpath.Parse(c.Path, BuildConfig(rec, true, false))
+	mainCfg := BuildConfig(rec, true, false) // the caller's Config object: used for Parse and for every fresh Retrieve below
+	f, err := jsonpath.Parse(c.Path, mainCfg)
 	if err != nil {
 		return fmt.Sprintf("generated path was rejected by Parse: %v", err)
 	}
@@ -144,7 +151,9 @@ func checkC05(c *Case, st *Stats) string {
 			got, gerr := f(docs[i])
 			st.Eval(1)
 			calls++
-			fresh, ferr := jsonpath.Retrieve(c.Path, docs[i], BuildConfig(nil, true, false))
+			logged, errs := len(rec.Calls), rec.Errs
+			fresh, ferr := jsonpath.Retrieve(c.Path, docs[i], mainCfg)
+			rec.Calls, rec.Errs = rec.Calls[:logged], errs
 			if !sameOutcome(got, gerr, fresh, ferr) {
 				return fmt.Sprintf("operation %d: call on document %d (%s) returned (%s, %v) but a fresh Retrieve returns (%s, %v); history so far: %s", step, i, cur[i].JSON(), JSONString(got), gerr, JSONString(fresh), ferr, hist)
 			}
@@ -219,6 +228,20 @@ func checkC05(c *Case, st *Stats) string {
 					r.scribbled = true
 				}
 			}
+		case "twoconfigs":
+			var other jsonpath.Config
+			for _, name := range gen.FilterNames {
+				other.SetFilterFunction(name, func(v interface{}) (interface{}, error) { return "FROM-THE-OTHER-CONFIG", nil })
+			}
+			for _, name := range gen.AggNames {
+				other.SetAggregateFunction(name, func(vs []interface{}) (interface{}, error) { return "FROM-THE-OTHER-CONFIG", nil })
+			}
+			other.SetFilterFunction("only-in-other", func(v interface{}) (interface{}, error) { return v, nil })
+			logged, errs := len(rec.Calls), rec.Errs
+			_, _ = jsonpath.Retrieve(c.Paths[op.A%len(c.Paths)], docs[op.B%len(docs)], mainCfg, other)
+			rec.Calls, rec.Errs = rec.Calls[:logged], errs
+			st.Class("unrelated-call-with-two-configs")
+			hist += "retrieve-with-two-configs "
 		case "poison":
 			pp := poisonPaths[op.A%len(poisonPaths)]
 			_, _ = jsonpath.Parse(pp, BuildConfig(nil, true, false))
